@@ -440,6 +440,8 @@ pub enum AuxOp {
     Close { code: u32, reason_len: u8 },
     /// local_address_changed notification (client)
     LocalAddrChanged,
+    /// `Connection::path_changed()`: restart RTT, congestion control and MTU discovery
+    PathChanged,
     /// Reset the n-th (cyclically) locally initiated stream that is still being written, if there is
     /// one (C17: resets at arbitrary instants of the early phase)
     ResetOpen { nth: u8, code: u32 },
@@ -546,6 +548,8 @@ pub enum TokenChoice {
     OtherCid(u16),
     /// the exact token with one bit flipped
     NearMiss(u8),
+    /// a token the peer issued (NEW_CONNECTION_ID) for a connection ID the victim is not sending to
+    IssuedNotInUse(u8),
 }
 
 #[derive(Clone, Debug, Serialize, Deserialize, PartialEq)]
@@ -579,6 +583,7 @@ pub fn arb_attack(max_on: u16, spoof_addr: bool) -> impl Strategy<Value = Attack
             2 => Just(TokenChoice::ExactCurrent),
             1 => any::<u16>().prop_map(TokenChoice::OtherCid),
             1 => (0u8..128).prop_map(TokenChoice::NearMiss),
+            2 => any::<u8>().prop_map(TokenChoice::IssuedNotInUse),
         ]
         .prop_map(AttackKind::ResetSuffix),
         1 => Just(AttackKind::SpliceCid),
